@@ -137,15 +137,16 @@ Fixpoint run_actions (rec : setup_fn) (fwd : bool) (depth : nat) (just : bool)
       match a with
       | ASetup optional nm jst =>
           if cut_off just (S depth) then run_actions rec fwd depth just acts' st ds else
-          let saved := s_env st in                              (* pushStack("env") *)
+          (* pushStack env saves the environment and the aliases; popStack env after a failure puts both back
+             (the code after the fix: a failed dependency restores the aliases as well as the environment;
+             before it the aliases defined below the failed dependency stayed): the loop goes on, or raises,
+             from the state it had before the dependency *)
           match rec st ds nm fwd (S depth) jst with
           | RDone true st' ds' => run_actions rec fwd depth just acts' st' ds'
-          | RDone false st' ds' =>
-              let st'' := with_env st' saved in                 (* popStack("env") *)
-              if fwd && negb optional then RRaise st'' ds' else run_actions rec fwd depth just acts' st'' ds'
-          | RRaise st' ds' =>
-              let st'' := with_env st' saved in
-              if fwd && negb optional then RRaise st'' ds' else run_actions rec fwd depth just acts' st'' ds'
+          | RDone false _ ds' =>
+              if fwd && negb optional then RRaise st ds' else run_actions rec fwd depth just acts' st ds'
+          | RRaise _ ds' =>
+              if fwd && negb optional then RRaise st ds' else run_actions rec fwd depth just acts' st ds'
           | other => other
           end
       | _ =>
